@@ -125,6 +125,18 @@ def run(ctx, eng):
                     f.attr if isinstance(f, ast.Attribute) else None)
                 if nm in ORDER_SENSITIVE_CONSUMERS and nd.args:
                     it, how = nd.args[0], '%s()' % nm
+                elif nm == 'pop' and not nd.args and \
+                        isinstance(f, ast.Attribute):
+                    # set.pop() hands out an arbitrary element
+                    it, how = f.value, 'pop() picks an arbitrary element'
+                elif nm == 'format' and isinstance(f, ast.Attribute) and \
+                        isinstance(f.value, ast.Constant):
+                    for a in list(nd.args) + [k.value for k in nd.keywords]:
+                        sites += 1
+                        if is_setty(eng, a, fi):
+                            found.append((q, 'formats a set into a message',
+                                          a, nd))
+                    continue
             elif isinstance(nd, ast.BinOp) and isinstance(nd.op, ast.Mod) \
                     and isinstance(nd.left, ast.Constant) and \
                     isinstance(nd.left.value, (str, bytes)):
